@@ -8,6 +8,7 @@
 template strings, as well as template runtime operations."""
 
 import contextlib
+import importlib.util
 from importlib import abc
 from importlib import machinery
 import json
@@ -842,6 +843,10 @@ def _compile_module_file(template, text, filename, outputpath, module_writer):
     if isinstance(source, str):
         source = source.encode(lexer.encoding or "ascii")
 
+    # bytecode cached for the module file being replaced is matched to
+    # its source by whole-second mtime and size only, and would be run
+    # in place of a module rewritten within the same second
+    _remove_bytecode(outputpath)
     if module_writer:
         module_writer(source, outputpath)
     else:
@@ -853,6 +858,14 @@ def _compile_module_file(template, text, filename, outputpath, module_writer):
         os.write(dest, source)
         os.close(dest)
         shutil.move(name, outputpath)
+    _remove_bytecode(outputpath)
+
+
+def _remove_bytecode(path):
+    try:
+        os.remove(importlib.util.cache_from_source(path))
+    except (OSError, NotImplementedError):
+        pass
 
 
 def _get_module_info_from_callable(callable_):
